@@ -33,7 +33,7 @@ def required(tier):
 
 def gen_cases(seed, tier):
     rng = np.random.default_rng([seed, 5])
-    n = 320 if tier == 'quick' else 12000
+    n = 320 if tier == 'quick' else 48000
     cases = []
     for i in range(n):
         route = ROUTES[i % len(ROUTES)]
